@@ -113,7 +113,7 @@ impl State {
                 }
                 seen.insert(t.0);
 
-                if t.1 <= 0.0 || t.1 > 1.0 {
+                if t.1.is_nan() || t.1 <= 0.0 || t.1 > 1.0 {
                     Err(Error::Machine(format!(
                         "found probability {}, has to be (0.0, 1.0]",
                         t.1
